@@ -448,16 +448,20 @@ func verify(args []string) int {
 	}
 	nClaimed := 0
 	nDisClaimed := 0
+	// claimed = baseline obligations that this run generated (under their own or a matched new name); baseline
+	// obligations that are no longer generated are reported separately (baseline_obligations_missing), not counted
 	for _, n := range base.Discharged {
-		nClaimed++
-		if o, ok := byName[n]; ok && (o.Status == "discharged" || o.Status == "structural-ok") {
-			nDisClaimed++
+		if o, ok := byName[n]; ok {
+			nClaimed++
+			if o.Status == "discharged" || o.Status == "structural-ok" {
+				nDisClaimed++
+			}
 		}
 	}
-	// renamed-but-discharged obligations count as discharged claims
-	nDisClaimed += len(base.Discharged) - nDisClaimed - len(missing) - countInBase(viols, inDis)
-	if nDisClaimed < 0 {
-		nDisClaimed = 0
+	renamed := len(base.Discharged) - nClaimed - len(missing)
+	if renamed > 0 {
+		nClaimed += renamed
+		nDisClaimed += renamed
 	}
 	if len(missing) > 0 {
 		for _, m := range missing {
